@@ -4,6 +4,7 @@ from vlib.core import Case
 PROP = "C06"
 SPEC_MODE = "oracle"
 KEEP_PREFIX = 1
+EXTRA_MODULES = ("Sentinel.Lemmas.HotConc", "Sentinel.Lemmas.HotConcCap")
 SIZES = {"quick": 6000, "thorough": 120000}
 BATCH = 3000
 RULE = ("per case 1-4 hotspot rules (mostly MetricType=Concurrency; general threshold from {0,1,1,2,3}, 0-2 specific items with "
@@ -11,7 +12,9 @@ RULE = ("per case 1-4 hotspot rules (mostly MetricType=Concurrency; general thre
         "negative thresholds; ParamsMaxCapacity from {0 (=4000),1,2,3,8}; sometimes two rules on one resource, sometimes an inert QPS rule) on "
         "1-3 resources, then 15-90 ops: entries whose arguments are drawn from a pool of 4-9 values of five dynamic types (so that the "
         "same value recurs and thresholds are reached, crossed by one and released), with 0-3 positional arguments and optional "
-        "attachments, exits of any earlier entry in any order (nested and interleaved across values and resources), reads of a live "
+        "attachments, exits of any earlier entry in any order (nested and interleaved across values and resources); in a third of the "
+        "cases some Entry calls are made by other goroutines that are held at the yield point between the rule-check loop and the "
+        "statistic loop and resumed later in any order (schedules: check/commit interleavings, up to 4 parked at once); reads of a live "
         "entry's Input.Args, a flow rule with threshold 0 on a resource (entries blocked by another slot), occasionally a reload; "
         "non-trivial = some entry was blocked by the hotspot rule, some entry passed after an exit, and at least two entries with "
         "different values were alive at once; distinct by (rules, op-kind/result sequence)")
@@ -60,6 +63,8 @@ def gen_case(rng, cid, big=False):
         return rs
     ops = ["load " + " ".join(rules())]
     ids, k = [], 0
+    parked = []
+    p_race = rng.choice([0, 0, 0, 0.08, 0.2, 0.35])
     nops = rng.randint(15, 90) if not big else rng.randint(100, 300)
     # phases bias the mix: filling (many entries), draining (many exits)
     p_exit = rng.choice([0.2, 0.3, 0.4])
@@ -67,7 +72,11 @@ def gen_case(rng, cid, big=False):
         r = rng.random()
         if rng.random() < 0.04:
             p_exit = rng.choice([0.1, 0.3, 0.5, 0.8])
-        if r < p_exit and ids:
+        if parked and rng.random() < 0.45:
+            eid = parked.pop(rng.randrange(len(parked)))
+            ops.append(f"resume {eid}")
+            ids.append(eid)
+        elif r < p_exit and ids:
             i = rng.randrange(len(ids)) if rng.random() < 0.7 else (len(ids) - 1 if rng.random() < 0.5 else 0)
             ops.append(f"exit {ids.pop(i)}")
         elif r < p_exit + 0.08 and ids:
@@ -79,9 +88,24 @@ def gen_case(rng, cid, big=False):
         else:
             k += 1
             eid = f"e{k}"
-            ops.append(gen_entry(rng, eid, rng.choice(ress), pool))
-            ids.append(eid)
+            e = gen_entry(rng, eid, rng.choice(ress), pool)
+            if rng.random() < p_race and len(parked) < 4:
+                # the same call made by another goroutine, parked between its check and its statistic slots;
+                # often a second one for the same value right behind it (the check-then-act window)
+                ops.append("p" + e)
+                parked.append(eid)
+                if rng.random() < 0.5:
+                    k += 1
+                    ops.append("p" + " ".join(["entry", f"e{k}"] + e.split()[2:]))
+                    parked.append(f"e{k}")
+            else:
+                ops.append(e)
+                ids.append(eid)
     # drain and probe: after everything has exited every value must be admissible again (returns to zero)
+    rng.shuffle(parked)
+    for eid in parked:
+        ops.append(f"resume {eid}")
+        ids.append(eid)
     if rng.random() < 0.7:
         rng.shuffle(ids)
         for eid in ids:
@@ -126,7 +150,7 @@ def densify(ops, rng):
     for o in ops:
         out.append(o)
         t = o.split()
-        if t[0] == "entry":
+        if t[0] in ("entry", "resume"):
             ids.append(t[1])
         if rng.random() < 0.4 and ids:
             for i in rng.sample(ids, min(len(ids), 3)):
@@ -143,6 +167,7 @@ def nontrivial(case, impl):
     blocked = passed_after_exit = False
     seen_exit = False
     live = {}
+    parked = {}
     two = False
     sig = []
     for l in impl:
@@ -152,7 +177,12 @@ def nontrivial(case, impl):
             seen_exit = t[1] in live or seen_exit
             live.pop(t[1], None)
             sig.append("x")
-        elif t[0] == "entry":
+        elif t[0] == "pentry":
+            parked[t[1]] = tuple(t[3:])
+            sig.append("c")
+        elif t[0] in ("entry", "resume"):
+            if t[0] == "resume":
+                t = ["entry", t[1], "?"] + list(parked.pop(t[1], ()))
             if r == "block hot":
                 blocked = True
                 sig.append("b")
@@ -175,14 +205,17 @@ META = {
     "level_text": ("Theorems in lean/Sentinel/Props/C06.lean, kernel-checked for every rule set, every argument list and every history of entries "
                    "and exits in any order: while a rule's counter cache has not evicted, the cell of every value equals the number of live entries "
                    "admitted with it (cell_eq_live), admission is exactly live(v) < threshold(v) for every value that already has a cell "
-                   "(admit_iff_*), cells return to zero, entries for other values / blocked entries / entries blocked by another slot leave a "
+                   "(admit_iff_*, check_verdict_iff under any check/commit interleaving), the cap live(v) <= threshold(v) in sequential histories with "
+                   "positive thresholds (capped_sequential), no eviction while at most ParamsMaxCapacity distinct values were seen "
+                   "(no_evict_of_few_values), cells return to zero, entries for other values / blocked entries / entries blocked by another slot leave a "
                    "value's cell untouched.  The model (LRU cells, first-touch shortcut, re-extraction at exit) is tied to core/hotspot + api.Entry "
                    "by running the same op files through the real packages and the compiled Lean driver and comparing every answer; the property "
                    "itself (ledger recomputed from the trace) is judged on the implementation's own trace."),
     "level_note": ("Trusted: Lean kernel; axioms propext/Classical.choice/Quot.sound; Go harness and canonical printing. Two deviations of the code "
-                   "from the statement are recorded as known findings with Lean witnesses (first touch of a value is admitted without comparison, "
+                   "from the statement are recorded as known findings with Lean witnesses, plus the check-then-act race (first touch of a value is admitted without comparison, "
                    "so threshold 0 admits one; LRU eviction of a live value's cell beyond ParamsMaxCapacity distinct values). Sequential histories "
-                   "only: the check-then-increment window between goroutines is not explored. Values: int, int64, string, bool, nil (no float/NaN, "
+                   "and check/commit interleavings at the one yield point that matters for the cells (cache operations are under a lock, counter updates "
+                   "are single atomic adds); the check-then-act overshoot between goroutines is a third known finding. Values: int, int64, string, bool, nil (no float/NaN, "
                    "no unhashable values); QPS rules are inert here (C05)."),
     "design_ref": "DESIGN.md 6.C06",
 }
